@@ -154,6 +154,7 @@ func (mp *MotionProcessor) stopConstantRecorder() {
 		return
 	}
 	mp.constantRecorder.StopRecording()
+	mp.crFrames = 0
 }
 
 func (mp *MotionProcessor) processConstantRecorder(frame *cptvframe.Frame) {
@@ -169,11 +170,11 @@ func (mp *MotionProcessor) processConstantRecorder(frame *cptvframe.Frame) {
 	mp.constantRecorder.WriteFrame(frame)
 	mp.crFrames++
 	if mp.crFrames > mp.maxFrames {
+		mp.crFrames = 0
 		if err := mp.constantRecorder.StopRecording(); err != nil {
 			mp.log.Printf("error with stoping constant recorder: %v", err)
 			return
 		}
-		mp.crFrames = 0
 	}
 }
 
